@@ -397,8 +397,10 @@ class Gen:
         return True
 
     def one_arg(self, boolret=None):
+        loose = self.arm == "reject" and self.r.random() < 0.2
+
         def pred(e):
-            if e["rk"] != "qf" or not e["meta"].get("compiled", True):
+            if e["rk"] != "qf" or not (loose or e["meta"].get("compiled", True)):
                 return False
             if e["meta"].get("nargs") != 1:
                 return False
@@ -450,7 +452,10 @@ class Gen:
         return True
 
     def circ_holder(self):
-        return lambda e: (e["rk"] == "qf" and e["meta"].get("compiled", True)) or e["rk"] == "algo"
+        # in the reject arm also functions that were never compiled to a circuit (to_compile=False):
+        # handing one to an exporter / decompiler / algorithm is refused -- and must leave it as it was
+        loose = self.arm == "reject" and self.r.random() < 0.2
+        return lambda e: (e["rk"] == "qf" and (loose or e["meta"].get("compiled", True))) or e["rk"] == "algo"
 
     def b_export(self, s):
         r = self.r
